@@ -102,6 +102,10 @@ type flowWalker struct {
 	// tail: nothing of the function executes after the statement list being walked (a bare
 	// `return` there is redundant and not emitted)
 	tail bool
+	// loops entered so far / at the entry of the innermost inlined helper: a bare `return` inside a
+	// loop of an inlined helper leaves that loop and the helper, which in the caller's flow is what a
+	// `break` out of the same loop was before the loop was extracted
+	loops, inlLoops int
 }
 
 // pinnedFuncs: the functions that have a flow of their own; a call to one of them is an action
@@ -352,7 +356,9 @@ func (w *flowWalker) expr(e ast.Expr) {
 				w.inl = append(w.inl, fn)
 				t := w.tail
 				w.tail = true
-				defer func() { w.tail = t }()
+				il := w.inlLoops
+				w.inlLoops = w.loops
+				defer func() { w.tail = t; w.inlLoops = il }()
 				body := fd.Body.List
 				// a trailing `return e` contributes the actions of e only
 				if n := len(body); n > 0 {
@@ -600,7 +606,9 @@ func (w *flowWalker) stmt(st ast.Stmt) {
 		if w.tail && len(x.Results) == 0 {
 			break // falls off the end anyway
 		}
-		if len(w.inl) > 0 {
+		if len(w.inl) > 0 && len(x.Results) == 0 && w.loops > w.inlLoops {
+			w.emit("break") // see flowWalker.loops
+		} else if len(w.inl) > 0 {
 			w.emit("ret") // return of an inlined helper, not of the pinned function
 		} else {
 			w.emit("return")
@@ -617,6 +625,7 @@ func (w *flowWalker) stmt(st ast.Stmt) {
 		}
 		t := w.tail
 		w.tail = false
+		w.loops++
 		w.emit("for{")
 		w.expr(x.Cond)
 		w.block(x.Body.List)
@@ -624,15 +633,18 @@ func (w *flowWalker) stmt(st ast.Stmt) {
 			w.stmt(x.Post)
 		}
 		w.emit("}")
+		w.loops--
 		w.tail = t
 	case *ast.RangeStmt:
 		// same skeleton as an index loop over the same collection
 		w.expr(x.X)
 		t := w.tail
 		w.tail = false
+		w.loops++
 		w.emit("for{")
 		w.block(x.Body.List)
 		w.emit("}")
+		w.loops--
 		w.tail = t
 	case *ast.SelectStmt:
 		w.emit("select{")
